@@ -136,13 +136,16 @@ func (v *env) judge(d *gen.Doc, text string, withDo bool) (out []verdict, mv mru
 	if err != nil {
 		return []verdict{{"generated document does not parse: " + err.Error(), "parse"}}, nil
 	}
-	mv = mrules.Check(v.s, d)
+	mv, unspec := mrules.CheckU(v.s, d)
 	sch := &v.f.B.Schema
 	for _, name := range mrules.RuleNames {
 		var res graphql.ValidationResult
 		if bad := guard(func() { res = graphql.ValidateDocument(sch, doc, []graphql.ValidationRuleFn{libRules[name]}) }); bad != "" {
 			out = append(out, verdict{fmt.Sprintf("rule %s alone: %s", name, bad), name})
 			continue
+		}
+		if unspec[name] {
+			continue // the document leaves this rule's verdict open
 		}
 		want := len(mv[name]) > 0
 		got := !res.IsValid
